@@ -27,6 +27,7 @@ func coinProfile() sim.Profile {
 func TestC22(t *testing.T) {
 	rapid.Check(t, func(t *rapid.T) {
 		wo := sim.DefaultOpts()
+		wo.CoinIDGap = rapid.Bool().Draw(t, "coinIDGap")
 		h := newHistory(t, wo, coinProfile(), sim.BlockOpts{MaxTxs: 10})
 		defer queryLoad(t, h, 0)()
 		// registry model
